@@ -612,13 +612,21 @@ def first_use_by_two_callers(te, plan, res, tr):
     again by a single caller, must give the bytes it gave then (lazily built tables, caches filled on first use)."""
     from ..interleave import Interleaver, InterleaveStall
     rng = random.Random(plan["case_seed"] ^ 0xF1257)
-    insts = []
-    for cd in sorted(te.all_classes(), key=lambda c: c.name)[:10]:
-        try:
-            val = valuegen.ValueGen(te.spec, rng, p_none=0.0).gen_class(cd)
-            insts.append(Instance(te, cd.name, "ctor", val, None, 0))
-        except Exception:  # noqa
-            continue
+    insts = []      # two different instances of every class, dealt to the two callers: both meet each class for the first time
+    def switches_first(c):
+        n_cases = sum(len(getattr(i, "cases", []) or []) for i in c.body if i.tag == "switch")
+        return (-n_cases, c.name)
+
+    for cd in sorted(te.all_classes(), key=switches_first)[:8]:
+        pair = []
+        for _ in range(2):
+            try:
+                val = valuegen.ValueGen(te.spec, rng, p_none=0.0).gen_class(cd)
+                pair.append(Instance(te, cd.name, "ctor", val, None, 0))
+            except Exception:  # noqa
+                break
+        if len(pair) == 2:
+            insts.extend(pair)
     if len(insts) < 2:
         return None
 
